@@ -178,3 +178,19 @@ TEXT["C15"] = dict(
          "lexes as a symbol) and are covered by the text-stability oracle only",
     technique="Coq proof (structural induction on the expression, one lemma per production) over the regenerated grammar + differential correspondence",
 )
+
+
+TEXT["C07"] = dict(
+    text="Theorems (Coq kernel, no axioms) over a MEMORY-LEVEL model (heap of mutable objects; a micro substitution is a slice (array,len,cap), a "
+         "gomini state a struct of map references, a stream cell {state,proc,mem}; every operation returns its write log): for every history - "
+         "a tree of versions in which any published value may be extended again, so sibling branches and every evaluation order are covered - "
+         "each write of exts/Set/NewVar as the code performs them targets an object allocated by that same operation, every value published "
+         "earlier shows the same bindings afterwards, sibling extensions are independent of what ran in between, re-running gives the same "
+         "result, CarCdr is memoised and re-traversal returns the same sequence; refutations for append-based exts and in-place Set; "
+         "Substitutions.String()'s in-place sort is harmless for distinct keys. Tie: random histories of the REAL exts / NewState / Set / "
+         "NewVar compared with the model's views of every published value, plus snapshot oracles (input state, every earlier answer, "
+         "re-traversal, re-run) on micro programs over slices with spare capacity, gomini goal trees run concurrently, and concurrent.DisjPlus/ConjPlus.",
+    note="partial in this sense: the theorems are about the transcribed write sets; that the Go functions perform no other writes is checked by the "
+         "harness's snapshots (and the race detector in the thorough tier), not proved. Trusted: Coq kernel + vm_compute; the harness",
+    technique="Coq proof (invariant by induction over histories of a heap model with write logs) + differential correspondence on histories + snapshot oracles",
+)
